@@ -1,0 +1,64 @@
+//go:build verif
+
+// Contracts for the TLS-required and AUTH gates (C11), checked by /verif/cmd/nsqvc. Comment-only file.
+
+package nsqd
+
+// nsqd.New normalises the options it was given before the daemon starts.
+//@ constructors nsqd.New
+//@ immutable Options.TLSRequired, Options.AuthHTTPAddresses, clientV2.nsqd, protocolV2.nsqd, httpServer.nsqd, httpServer.tlsEnabled, httpServer.tlsRequired, httpServer.router
+
+// The TLS gate: when TLS is required a connection that has not completed the TLS upgrade is
+// refused with the fatal E_INVALID; otherwise the command may proceed. The ghost records that the
+// gate was passed, so that Exec's dispatch can be checked against it.
+//@ ghost tlsGatePassed bool
+//@ func enforceTLSPolicy(client *clientV2, p *protocolV2, command []byte) error
+//@   props C11 C09
+//@   requires client != nil && p != nil && p.nsqd != nil
+//@   ensures[exact] result == nil <==> (curOpts(p.nsqd).TLSRequired == TLSNotRequired || client.TLS == 1)
+//@   ensures[fatal] result != nil ==> dyntype(result) == typetag("*protocol.FatalClientErr") && unbox(result, "*protocol.FatalClientErr").Code == "E_INVALID"
+//@   modifies tlsGatePassed
+//@   onreturn tlsGatePassed := result == nil
+
+//@ func (n *NSQD) IsAuthEnabled() bool
+//@   props C11
+//@   requires n != nil
+//@   ensures result == (len(curOpts(n).AuthHTTPAddresses) != 0)
+//@   modifies
+
+//@ func (c *clientV2) HasAuthorizations() bool
+//@   props C11
+//@   requires c != nil
+//@   ensures result == (c.AuthState != nil && len(c.AuthState.Authorizations) != 0)
+//@   modifies
+
+// The auth server is asked again exactly when the cached answer has expired; its error propagates.
+// QueryAuthd replaces the cached answer only on success (assumed: it is an HTTP round trip).
+//@ ghost authQueries int
+//@ func (c *clientV2) QueryAuthd() error
+//@   trusted
+//@   ensures result != nil ==> c.AuthState == old(c.AuthState)
+//@   ensures result == nil ==> c.AuthState != nil
+//@   modifies c.AuthState, authQueries
+//@   onreturn authQueries := authQueries + 1
+
+//@ func (c *clientV2) IsAuthorized(topic, channel string) (bool, error)
+//@   props C11
+//@   requires c != nil
+//@   ensures[no-answer] old(c.AuthState) == nil ==> !result0 && result1 == nil
+//@   ensures[granted-by-current-answer] result0 ==> result1 == nil && c.AuthState != nil && auth.stateAllows(c.AuthState, topic, channel)
+//@   ensures[denied] result1 == nil && !result0 && c.AuthState != nil ==> !auth.stateAllows(c.AuthState, topic, channel)
+//@   ensures[refetch-iff-expired] old(c.AuthState) != nil ==> (authQueries == old(authQueries) + 1 <==> unixNano(old(c.AuthState.Expires)) < unixNano(lastNow)) && (authQueries == old(authQueries) || authQueries == old(authQueries) + 1)
+//@   ensures[auth-error] result1 != nil ==> !result0
+//@   modifies c.AuthState, authQueries, lastNow
+
+// CheckAuth: nil only if auth is off, or the client has authorizations and the current answer
+// grants this topic/channel; otherwise one of the documented fatal errors.
+//@ func (p *protocolV2) CheckAuth(client *clientV2, cmd, topicName, channelName string) error
+//@   props C11
+//@   requires p != nil && p.nsqd != nil && client != nil && client.nsqd != nil
+//@   ensures[granted] result == nil ==> len(curOpts(client.nsqd).AuthHTTPAddresses) == 0 || (client.AuthState != nil && auth.stateAllows(client.AuthState, topicName, channelName))
+//@   ensures[auth-first] len(curOpts(client.nsqd).AuthHTTPAddresses) != 0 && (old(client.AuthState) == nil || len(old(client.AuthState.Authorizations)) == 0) ==> isFatalCode(result, "E_AUTH_FIRST")
+//@   ensures[codes] result != nil ==> isFatalCode(result, "E_AUTH_FIRST") || isFatalCode(result, "E_AUTH_FAILED") || isFatalCode(result, "E_UNAUTHORIZED")
+//@   modifies client.AuthState, authQueries, lastNow
+//@ pred isFatalCode(err error, code string) := dyntype(err) == typetag("*protocol.FatalClientErr") && unbox(err, "*protocol.FatalClientErr").Code == code
